@@ -95,6 +95,71 @@ def _snap(x, depth=0):
     return None
 
 
+# ---- representation variants of array arguments (same values, other memory layout / flags) ---------
+VARIANT_ENTRY_POINTS = {"bottleneck", "wasserstein", "heat", "sliced_wasserstein", "persistent_entropy", "transform",
+                        "gaussian", "bvn_cdf", "sbvn_cdf", "uniform", "norm_cdf", "death_vector", "linear_ramp", "persistence"}
+VARIANT_NAMES = ["fortran-order", "strided-view", "read-only", "negative-stride-view"]
+
+
+def _variant_of(x, kind, depth=0):
+    """x with every ndarray inside replaced by an equal-valued array in another layout."""
+    if isinstance(x, np.ndarray) and x.ndim >= 1 and x.size > 0 and x.dtype != object:
+        if kind == 0:
+            return np.asfortranarray(x.copy())
+        if kind == 1:
+            big = np.zeros(tuple(2 * n for n in x.shape), dtype=x.dtype)
+            view = big[tuple(slice(None, None, 2) for _ in x.shape)]
+            view[...] = x
+            return view
+        if kind == 2:
+            y = x.copy()
+            y.setflags(write=False)
+            return y
+        return x[::-1].copy()[::-1]
+    if isinstance(x, list) and depth < 3:
+        return [_variant_of(v, kind, depth + 1) for v in x]
+    if isinstance(x, tuple) and depth < 3:
+        return tuple(_variant_of(v, kind, depth + 1) for v in x)
+    return x
+
+
+def _has_array(x, depth=0):
+    if isinstance(x, np.ndarray):
+        return x.ndim >= 1 and x.size > 0 and x.dtype != object
+    if isinstance(x, (list, tuple)) and depth < 3:
+        return any(_has_array(v, depth + 1) for v in x)
+    return False
+
+
+def _same_result(a, b, rtol=1e-11):
+    """Equality of two results of the same call up to summation-order round-off."""
+    if isinstance(a, (tuple, list)) and isinstance(b, (tuple, list)):
+        return len(a) == len(b) and all(_same_result(x, y, rtol) for x, y in zip(a, b))
+    if isinstance(a, np.ndarray) or isinstance(b, np.ndarray):
+        try:
+            a, b = np.asarray(a), np.asarray(b)
+            if a.shape != b.shape:
+                return False
+            if a.dtype.kind in "fiub" and b.dtype.kind in "fiub":
+                a, b = a.astype(float), b.astype(float)
+                sc = max(1e-300, float(np.nanmax(np.abs(a))) if a.size else 0.0)
+                return bool(np.all((np.abs(a - b) <= rtol * sc) | ((a != a) & (b != b))))
+            return bool(np.all(a == b))
+        except Exception:  # noqa: BLE001
+            return False
+    if isinstance(a, (int, float, np.integer, np.floating)) and isinstance(b, (int, float, np.integer, np.floating)):
+        a, b = float(a), float(b)
+        return (a != a and b != b) or abs(a - b) <= rtol * max(abs(a), abs(b), 1e-300) or a == b
+    if hasattr(a, "values") and hasattr(b, "values") and hasattr(a, "num_steps"):
+        return _same_result(np.asarray(a.values), np.asarray(b.values), rtol)
+    if hasattr(a, "critical_pairs") and hasattr(b, "critical_pairs"):
+        return _same_result([[list(map(float, p)) for p in d] for d in a.critical_pairs], [[list(map(float, p)) for p in d] for d in b.critical_pairs], rtol)
+    try:
+        return bool(a == b)
+    except Exception:  # noqa: BLE001
+        return True
+
+
 class Ctx:
     CASE_TIMEOUT_S = 60
     MAX_STORED_VIOLATIONS = 60
@@ -125,6 +190,8 @@ class Ctx:
         self.case = None
         self._obs = []
         self._scratch = False
+        self.call_variants = False      # set from the check module's CALL_VARIANTS
+        self._variant_counter = 0
 
     # ---- bookkeeping -------------------------------------------------------------------
     def state(self, key):
@@ -154,14 +221,56 @@ class Ctx:
         call that writes into its arguments is reported by every check, at every call site."""
         self.transitions += 1
         before = [_snap(x) for x in a] + [_snap(kw[k]) for k in sorted(kw)]
+        ok = False
         try:
-            return fn(*a, **kw)
+            r = fn(*a, **kw)
+            ok = True
+            return r
         finally:
             after = [_snap(x) for x in a] + [_snap(kw[k]) for k in sorted(kw)]
             if after != before:
                 pos = [i for i, (x, y) in enumerate(zip(before, after)) if x != y]
                 self.violation("argument-modified", "%s modified its argument(s) at position(s) %r in place" % (getattr(fn, "__name__", repr(fn)), pos),
                                observed=[jsonable(x) for x in a], extra={"entry": getattr(fn, "__name__", repr(fn)), "positions": pos})
+            elif ok and self.call_variants and getattr(fn, "__name__", "") in VARIANT_ENTRY_POINTS and (_has_array(a) or _has_array(list(kw.values()))):
+                self._variant_call(fn, a, kw, r)
+
+    def _variant_call(self, fn, a, kw, base):
+        """The same call once more with every array argument in another memory layout (rotating through
+        Fortran order / strided view / read-only copy / negative-stride view) and with the global random
+        generators in another state: the result is a function of the VALUES passed, nothing else."""
+        import random
+        import warnings
+
+        self._variant_counter += 1
+        kind = self._variant_counter % len(VARIANT_NAMES)
+        a2 = tuple(_variant_of(x, kind) for x in a)
+        kw2 = {k: _variant_of(v, kind) for k, v in kw.items()}
+        st = np.random.get_state()
+        pst = random.getstate()
+        np.random.seed(self._variant_counter % 9973)
+        random.seed(self._variant_counter)
+        self.transitions += 1
+        self.counters["variant_calls:" + VARIANT_NAMES[kind]] += 1
+        name = getattr(fn, "__name__", repr(fn))
+        try:
+            with warnings.catch_warnings():
+                warnings.simplefilter("ignore")
+                r2 = fn(*a2, **kw2)
+        except CaseTimeout:
+            raise
+        except Exception as e:  # noqa: BLE001
+            self.violation("layout-exception:%s" % type(e).__name__, "%s raises %s: %s when the same values are passed as %s arrays" % (name, type(e).__name__, e, VARIANT_NAMES[kind]),
+                           observed=[jsonable(x) for x in a], extra={"entry": name, "variant": VARIANT_NAMES[kind]})
+            return
+        finally:
+            np.random.set_state(st)
+            random.setstate(pst)
+        self.validated += 1
+        if not _same_result(base, r2):
+            self.violation("layout-dependent", "%s returns another result when the same values are passed as %s arrays (and the global random generators are in another state)" % (name, VARIANT_NAMES[kind]),
+                           observed=jsonable(r2) if not hasattr(r2, "__dict__") else repr(r2), expected=jsonable(base) if not hasattr(base, "__dict__") else repr(base),
+                           extra={"entry": name, "variant": VARIANT_NAMES[kind], "args": [jsonable(x) for x in a]})
 
     def cap(self, what):
         if what not in self.caps:
@@ -209,6 +318,8 @@ class Ctx:
         import time as _t
 
         t0 = _t.time()
+        # the rotation of representation variants restarts per case (a replay of the case sees the same ones)
+        self._variant_counter = self._variant_counter_at_case_start = stable_hash(case) & 0xFFFF
         self._guarded(fn, case)
         elapsed = _t.time() - t0
         obs = self._obs
@@ -223,6 +334,8 @@ class Ctx:
             self.counters["selfcheck_cases"] += 1
             twin = Ctx(self.prop, self.tier, self.shard, self.nshards, self.seed, self.group, self.ngroups)
             twin._scratch = True
+            twin.call_variants = self.call_variants
+            twin._variant_counter = self._variant_counter_at_case_start
             twin.case = case
             twin._guarded(fn, case)
             if twin._obs != obs:
